@@ -168,6 +168,41 @@ def model_history(drv, ops):
     return {m: k for m, k in w}
 
 
+def discarded_handle_cases(out, root, spies, seed):
+    """the hook stays installed until `uninstall()` / the end of the with-block — not until the caller happens to drop the
+    object `install_import_hook` returned (a bare call, a helper function that has returned, the pytest plugin)"""
+    import gc
+
+    from jaxtyping._import_hook import _JaxtypingFinder
+
+    def helper(names, checker):
+        h = jaxtyping.install_import_hook(names, checker)   # noqa: F841  (bound only here)
+
+    for k, how in enumerate(("bare-call", "helper-returned", "rebound")):
+        prefix = f"h{seed}_drop{k}_"
+        write_forest(root, prefix)
+        importlib.invalidate_caches()
+        before = list(sys.meta_path)
+        try:
+            if how == "bare-call":
+                jaxtyping.install_import_hook([prefix + "foo"], "spy_a.check")
+            elif how == "helper-returned":
+                helper([prefix + "foo"], "spy_a.check")
+            else:
+                h = jaxtyping.install_import_hook([prefix + "foo"], "spy_a.check")
+                h = None  # noqa: F841
+            gc.collect()
+            mod = importlib.import_module(prefix + "foo.bar")
+            other = importlib.import_module(prefix + "foobar")
+            got = (hasattr(mod.f, "__wrapped__"), hasattr(other.f, "__wrapped__"))
+        finally:
+            sys.meta_path[:] = [f for f in sys.meta_path if f in before or not isinstance(f, _JaxtypingFinder)]
+        out.case(("discarded-handle", how), True, sample={"how": how, "instrumented": {"foo.bar": got[0], "foobar": got[1]}})
+        if got != (True, False):
+            out.violation(f"discarded-handle:{how}", f"install_import_hook(['foo'], …) whose return value was dropped ({how}), then `import foo.bar`, `import foobar`: instrumented = "
+                          f"{got}, must be (True, False): the hook is active until it is uninstalled", {"discarded_handle": how})
+
+
 def fault_histories(out, root, spies, seed):
     """a hooked module that fails to load (syntax error, caught by the importer) must not change what later imports get:
     bytecode caching is on, a module was loaded hooked before (its tagged bytecode is on disk), a broken hooked module is
@@ -297,6 +332,7 @@ def run(tier, seed, out, drv, facts):
                 if raised != should:
                     out.violation(f"real-checker:{mod.__name__.split('_', 1)[-1]}", f"ill-typed call into {mod.__name__} {'raised' if raised else 'did not raise'} TypeCheckError", {"module": mod.__name__})
             fault_histories(out, root, spies, seed)
+            discarded_handle_cases(out, root, spies, seed)
             if thorough:
                 subprocess_routes(out, root, seed)
         finally:
